@@ -7,6 +7,7 @@ from ..lit import canon
 
 ID = "C04"
 LEVEL = "exploration"
+W3_CONTRACTS = ['K3']  # the repository's own tests are also run under these contracts
 DECIDING = ["DataPath.get_data", "DataPath._extract_specified_datum_type",
             "DataPath._match_specified_multi_type", "DataPath._copy_with_multi_type",
             "DataPath._copy_with_datum_type"]
